@@ -158,6 +158,9 @@ class SetInterp(object):
         self.env = _Env(self._store)
         self.elems = dict(elems or {})    # normalised element text -> mask (singletons)
         self.model = model                # callable(interp, expr) -> plain value or None
+        self.if_model = None              # callable(interp, If statement) -> True when it executed the statement itself
+        self.for_model = None             # callable(interp, For statement) -> True when it executed the statement itself
+        self.fold = None                  # callable(expr) -> constant value of a name / expression, or None
 
     # -- public (plain values) ----------------------------------------------
     def eval(self, e):
@@ -183,6 +186,10 @@ class SetInterp(object):
         key = norm(e)
         if key in self.elems:
             return self.elems[key]
+        if self.fold is not None and not isinstance(e, ast.Constant):
+            v = self.fold(e)      # a module-level constant naming a known element (_INNER_NAME = 'next')
+            if isinstance(v, str) and repr(v) in self.elems:
+                return self.elems[repr(v)]
         raise Unmodelled('set element %s is not a known symbolic element' % key)
 
     def _mask(self, e):
@@ -236,6 +243,16 @@ class SetInterp(object):
                     return SV(v.m)          # a *copy*
                 return v
             if isinstance(f, ast.Attribute):
+                if norm(f) in ('set.union', 'frozenset.union') and e.args and not any(isinstance(a, ast.Starred) for a in e.args):
+                    m = 0                   # set.union(a, b, c): the unbound method, first argument is the receiver
+                    for a in e.args:
+                        m |= self._mask(a)
+                    return SV(m)
+                if norm(f) in ('set.intersection', 'frozenset.intersection') and e.args and not any(isinstance(a, ast.Starred) for a in e.args):
+                    m = self.u.full
+                    for a in e.args:
+                        m &= self._mask(a)
+                    return SV(m)
                 if norm(f) == 'set.union' and len(e.args) == 1 and isinstance(e.args[0], ast.Starred):
                     v = self._ev(e.args[0].value)
                     if isinstance(v, list):
@@ -273,6 +290,10 @@ class SetInterp(object):
                 out[k.value] = self._ev(v)
             return out
         if isinstance(e, (ast.ListComp, ast.SetComp, ast.GeneratorExp)):
+            if self.model is not None:
+                r = self.model(self, e)
+                if r is not None:
+                    return wrap(r)
             return SV(self._comp(e))
         if isinstance(e, ast.Starred):
             return self._ev(e.value)
@@ -391,6 +412,8 @@ class SetInterp(object):
                 raise Unmodelled('statement %s touches tracked sets' % norm(st))
             return
         if isinstance(st, ast.If):
+            if self.if_model is not None and self.if_model(self, st):
+                return
             # guards that only raise / return early without touching tracked names are skipped
             stores = set()
             for n in ast.walk(st):
@@ -405,11 +428,37 @@ class SetInterp(object):
             for s in stores:
                 self._store[s] = Opaque(st)
             return
+        if isinstance(st, ast.For):
+            if self.for_model is not None and self.for_model(self, st):
+                return
+            # ``for v in A: if <membership tests on v>: X.append(v)``: X gains the elements of A that pass the tests
+            if isinstance(st.target, ast.Name) and not st.orelse:
+                self._filter_loop(st.body, st.target.id, self._mask(st.iter))
+                return
+            raise Unmodelled('loop %s' % norm(st)[:80])
         if isinstance(st, (ast.Raise, ast.Pass, ast.Assert, ast.Return)):
             return
         if isinstance(st, (ast.Import, ast.ImportFrom, ast.Global, ast.Nonlocal)):
             return
         raise Unmodelled('statement %s' % norm(st)[:80])
+
+    def _filter_loop(self, body, var, cur):
+        for st in body:
+            if isinstance(st, ast.Pass) or (isinstance(st, ast.Expr) and isinstance(st.value, ast.Constant)):
+                continue
+            if isinstance(st, ast.If):
+                m = self._filter(st.test, var)
+                self._filter_loop(st.body, var, cur & m)
+                self._filter_loop(st.orelse, var, cur & self.u.neg(m))
+                continue
+            if isinstance(st, ast.Expr) and isinstance(st.value, ast.Call) and isinstance(st.value.func, ast.Attribute) and \
+                    isinstance(st.value.func.value, ast.Name) and st.value.func.attr in ('append', 'add') and len(st.value.args) == 1 \
+                    and isinstance(st.value.args[0], ast.Name) and st.value.args[0].id == var:
+                tgt = self._store.get(st.value.func.value.id)
+                if isinstance(tgt, SV):
+                    tgt.m |= cur
+                    continue
+            raise Unmodelled('loop body statement %s' % norm(st)[:80])
 
     def exec_block(self, stmts):
         for st in stmts:
